@@ -169,6 +169,9 @@ def make_child(sh):
                GhostData(('n', 'gw'), '__gw(@)', path=[('n', 'd1')], tag='gw')]
         if sh.get('ghost_order') == 'interleaved':
             gds = [gds[0], gds[2], gds[1]]
+        if kind in ('OwnedIntoExisting', 'RefIntoExisting'):
+            # a tuple position of a nested struct addressed through its child path (only expressible as an assignment)
+            gds = gds + [GhostData(('i', 7), '__gi(@)', path=[('n', 'd1')], tag='gi')]
         gd = GhostsInstr('ghosts', data=gds)
         return Spec('struct', shape=shape, traits=[t1], members=out, type_instrs=[cp] + ([gd] if shape == 'named' else []))
     return make
@@ -258,7 +261,8 @@ def make_enum(sh):
         if variant == 'litpat':
             t1 = TraitInstr(tn, 'i32', err=err, default_case=Ch('td', [None, '=> __dflt(@)']), tag='t1')
             t2 = TraitInstr(tn, 'Y', err=err, tag='t2')
-            v0 = Member('A', shape='unit', instrs=[SimpleInstr('literal', '1', ded=Ch('l0d', [None, 'i32', 'Y']))])
+            la, lb = SimpleInstr('literal', '1', ded=Ch('l0d', [None, 'i32', 'Y'])), Opt(Ch('l0p', [False, True], fork=True), SimpleInstr('literal', '11', ded=Ch('l0d2', ['i32', None, 'Y'])))
+            v0 = Member('A', shape='unit', instrs=[la, lb] if sh['kind'] in ('FromOwned', 'OwnedInto') else [lb, la])
             v1 = Member('B', shape='unit', instrs=[SimpleInstr('pattern', '2..=5', ded=Ch('p1d', [None, 'i32'])), MapInstr(Ch('v1n', ['into', 'owned_into', 'ref_into', 'map', 'from']), action=Ch('v1a', [None, '7']), tag='v1')])
             v2 = Member('C', shape='unit', instrs=[GhostInstr(Ch('v2g', ['ghost', 'ghost_owned', 'ghost_ref']), ded=Ch('v2gd', [None, 'i32']), action=Ch('v2a', [None, '{ __gv(@) }']), tag='gv')])
             return Spec('enum', traits=[t1, t2], members=[v0, v1, v2], tys=('i32', 'Y'))
@@ -411,6 +415,8 @@ def c07_shards(tier, seed):
                 if tier == 'quick' and (HINTS4.index(hint) + (shape == 'tuple') + (variant == 'ghost') + seed) % 2:
                     continue
                 out.append({'family': 'c07', 'shape': shape, 'hint': hint, 'variant': variant})
+    if not any(o['shape'] == 'named' and o['hint'] == 'Tuple' and o['variant'] == 'ghost' for o in out):
+        out.append({'family': 'c07', 'shape': 'named', 'hint': 'Tuple', 'variant': 'ghost'})
     out.append({'family': 'c07', 'shape': 'named', 'hint': 'Unspecified', 'variant': 'parent'})
     out.append({'family': 'c07', 'shape': 'named', 'hint': 'Struct', 'variant': 'parent'})
     return out
@@ -437,7 +443,8 @@ def make_c07(sh):
             return Spec('struct', shape=shape, traits=traits, members=[m0, m1, m2])
         m0 = Member(nm('a'), instrs=[MapInstr('map', member=ren, tag='e0')] if (shape == 'tuple' and hint == 'Struct') else [])
         m1 = Member(nm('b'), instrs=[GhostInstr(Ch('g1n', ['ghost', 'ghost_owned', 'ghost_ref']), action=Ch('g1a', ['__g1(@)', None]), tag='g1')] + ([MapInstr('map', member=('n', 'yy'), tag='e2')] if (shape == 'tuple' and hint == 'Struct') else []))
-        m2 = Member(nm('c'), instrs=[MapInstr(Ch('m2n', ['map', 'into', 'from', 'try_into', 'owned_into_existing']), member=(('n', 'xx') if ren[0] == 'n' else ('i', 2)), action=Ch('m2a', [None, '__e2(~)']), tag='e2')])
+        m2i = MapInstr(Ch('m2n', ['map', 'into', 'from', 'try_into', 'owned_into_existing']), member=(('n', 'xx') if ren[0] == 'n' else ('i', 2)), action=Ch('m2a', [None, '__e2(~)']), tag='e2')
+        m2 = Member(nm('c'), instrs=[Opt(Ch('m2p', [True, False], fork=True), m2i) if (shape == 'named' and hint == 'Tuple') else m2i])
         gi = GhostsInstr(Ch('gsn', ['ghosts', 'ghosts_owned', 'ghosts_ref']), data=[GhostData(('n', 'gx') if ren[0] == 'n' else ('i', 3), '__gx(@)', tag='gx')])
         return Spec('struct', shape=shape, traits=traits, members=[m0, m1, m2], type_instrs=[gi])
     return make
